@@ -56,6 +56,10 @@ fn scenarios(ctx: &Ctx) -> Vec<Scenario> {
   // connect phase
   add("ok", false, vec![good_c(1)], vec![good_a(p3.clone())]);
   add("connect-1-drop", false, vec![Resp::Drop, good_c(2)], vec![good_a(p3.clone())]);
+  // every connection id is the tracker's to choose, including the ones that look like "none"
+  for (label, id) in [("zero", 0u64), ("one", 1), ("all-ones", u64::MAX), ("magic", 0x41727101980), ("high-bit", 1 << 63), ("low-32-zero", 7 << 32)] {
+    add(&format!("connection-id-{label}"), false, vec![Resp::Correct(id.to_be_bytes().to_vec())], vec![good_a(p3.clone())]);
+  }
   add("connect-2-drops", false, vec![Resp::Drop, Resp::Drop, good_c(3)], vec![good_a(p3.clone())]);
   add("connect-3-drops", false, vec![Resp::Drop, Resp::Drop, Resp::Drop, good_c(4)], vec![good_a(p3.clone())]);
   add("connect-wrong-tid", false, vec![Resp::WrongTid(cid_bytes(5)), good_c(5)], vec![good_a(p3.clone())]);
@@ -224,6 +228,9 @@ pub fn run(ctx: &Ctx) -> Report {
     });
     if accepted_cid.is_none() && !announces.is_empty() {
       pf = Some("an announce was sent although no connect reply was acceptable".into());
+    }
+    if let (Some(cid), true) = (&accepted_cid, announces.is_empty()) {
+      pf = Some(format!("no announce request followed an acceptable connect reply (connection id {})", hex(cid)));
     }
     for d in &announces {
       if d.data.len() != 98 {
